@@ -207,7 +207,21 @@ def raise_message(stmt):
             if isinstance(a, ast.Constant) and isinstance(a.value, str):
                 return a.value
             if isinstance(a, ast.JoinedStr):
-                return "".join(v.value if isinstance(v, ast.Constant) else "{}" for v in a.values)
+                def piece(v):
+                    if isinstance(v, ast.Constant):
+                        return v.value
+                    # {Constants.X.value}: the documented name of the member
+                    fv = v.value if isinstance(v, ast.FormattedValue) else None
+                    if isinstance(fv, ast.Attribute) and fv.attr == "value":
+                        mm = member_of(fv.value)
+                        ctx_ = _EXPANDERS.get("ctx")
+                        if mm and ctx_ is not None:
+                            try:
+                                return enum_tables(ctx_)[mm[0]].get(mm[1], "{}")
+                            except Exception:
+                                return "{}"
+                    return "{}"
+                return "".join(piece(v) for v in a.values)
             return norm(a)
         return ""
     return None
@@ -266,7 +280,10 @@ def collect_guards(f, dnames):
                     visit(s.orelse, nested_in, presence_ctx)
                 else:
                     pres = pc[0] if pc and not pc[1] else set()
-                    visit(s.body, s, presence_ctx | pres)
+                    # `if K in options: if options[K] <= 0: raise` is the conjunction
+                    # `K in options and options[K] <= 0`: a pure presence test does
+                    # not count as nesting (the member is checked against it below)
+                    visit(s.body, nested_in if pres else s, presence_ctx | pres)
                     visit(s.orelse, s, presence_ctx)
     visit(f.body(), None, set())
     return guards, unknown
